@@ -4,7 +4,10 @@
 (*   update(d1, d2, overwrite)   find / findall / findunique / findkey     *)
 (*                                                                         *)
 (* Values (text and numbers are interned; id order = sort order; id 0 is   *)
-(* the falsy one: the empty string / the number 0):                        *)
+(* the falsy one: the empty string / the number 0; numbers are interned    *)
+(* in numeric order, negative ids for negative numbers - the harness maps  *)
+(* them to numbers of different digit counts, negatives and a float, whose *)
+(* text order differs from their numeric order):                           *)
 (*   [t |-> "str", n]  [t |-> "int", n]  [t |-> "none"]                    *)
 (*   [t |-> "dict", items |-> Seq(<<key, value>>)]                         *)
 (*   [t |-> "list", elems |-> Seq(value)]                                  *)
@@ -21,7 +24,7 @@
 (* the end of the original list, a dict patch over a non-dict, keys that   *)
 (* differ only in case.                                                    *)
 (***************************************************************************)
-EXTENDS Naturals, Sequences, FiniteSets, TLC, Json
+EXTENDS Integers, Sequences, FiniteSets, TLC, Json
 
 CONSTANTS
     Big,          \* FALSE: quick universes, TRUE: larger ones
@@ -270,13 +273,29 @@ FindVals  == {S(0), S(1), S(2), S(3), N(0), N(1), N(2)}
 FindValLists == {L(<<S(1), S(3)>>), L(<<S(2)>>), L(<<N(1), S(1)>>)}
 KeyTypes(lst, key) == {Lookup(lst[i].items, key).t : i \in {j \in DOMAIN lst : Has(lst[j].items, key)}}
 Homogeneous(lst, key) == Cardinality(KeyTypes(lst, key)) <= 1 /\ KeyTypes(lst, key) \subseteq {"str", "int"}
+\* findunique is also run over numeric keywords: negative numbers, zero, a fraction, numbers of 2, 3, 4, 5 digits
+NumItems == {<<>>} \cup {<< <<"name", N(i)>> >> : i \in {-2, -1, 0, 3, 4, 5, 6, 7}}
+NumLists == {[i \in DOMAIN s |-> D(s[i])] : s \in SeqsUpTo(NumItems, 3)}
+\* findkey on plain dictionaries whose keys are not all lower case, with sibling keys that differ only in case:
+\* the element stored under exactly the key given in the path
+CaseDoc ==
+    D(<< <<"layers", L(<<D(<< <<"name", S(1)>>, <<"Meta", D(<< <<"Title", S(1)>>, <<"title", S(2)>> >>)>> >>),
+                         D(<< <<"NAME", S(3)>>, <<"name", S(2)>> >>)>>)>>,
+         <<"WMS_SRS", S(3)>>, <<"wms_srs", S(1)>>,
+         <<"Web", D(<< <<"metadata", D(<< <<"Wms_Title", S(2)>> >>)>> >>)>> >>)
 \* the key is also given in upper case (short lists only, to keep the product small)
 KeyCases(l) == IF Len(l) <= 2 THEN {"l", "U"} ELSE {"l"}
 \* the find cases, as a predicate on `case` (nested quantifiers, see UInit)
 FindCase(kind) ==
     IF kind = "findkey" THEN
-        \E d \in D1 : \E p \in Paths(D(d)) : case = [kind |-> "findkey", d |-> D(d), path |-> p, res |-> FindKey(D(d), p)]
-    ELSE \E l \in FindLists : \E kc \in KeyCases(l) :
+        \* kc = "U": the keys of the path are given in upper case, which a Mapfile dict resolves (C17) - a plain
+        \* dict does not, so those cases are for Mapfile dicts only; CaseDoc is for plain dicts only
+        \/ \E d \in D1 : \E p \in Paths(D(d)) : \E kc \in {"l", "U"} :
+              case = [kind |-> "findkey", d |-> D(d), path |-> p, kc |-> kc, only |-> IF kc = "U" THEN "mapfile" ELSE "both",
+                      res |-> FindKey(D(d), p)]
+        \/ \E p \in Paths(CaseDoc) :
+              case = [kind |-> "findkey", d |-> CaseDoc, path |-> p, kc |-> "l", only |-> "plain", res |-> FindKey(CaseDoc, p)]
+    ELSE \E l \in FindLists \cup (IF kind = "findunique" THEN NumLists ELSE {}) : \E kc \in KeyCases(l) :
         CASE kind = "find" ->                  \* equality, also with a list-valued search value
                \E v \in FindVals \cup FindValLists :
                   case = [kind |-> "find", lst |-> L(l), key |-> "name", kc |-> kc, val |-> v, res |-> Find(l, "name", v)]
